@@ -492,6 +492,11 @@ def run(plan, ch, want_log=False):
             for key, ds in mgr.datasets.items():
                 if ds.status == dataset.DatasetStatus.paging_out and mon.jobs_alive == 0 and ds.ongoing_reads:
                     stuck += ds.size
+                elif ds.status == dataset.DatasetStatus.paged_in and mon.jobs_alive == 0 and ds.ongoing_reads and ds.delayed_purge:
+                    # the mirror image: a FAILED page-in of a dataset a dead reader still "holds" - the purge that the failure
+                    # callback asks for is delayed until that reader closes, i.e. for ever; not idle, not evictable
+                    stuck += ds.size
+                    K.probe("failed_pagein_held_by_dead_reader")
         want = cap - stuck
         if want > 0:
             buf, err = api_call(client.allocate, "__probe__", want, "d", timeout_sec=60.0)
